@@ -36,7 +36,8 @@ contract(
     requires=_move_pre,
     modifies=["packing"],
     loops={"0": Loop(inv=[
-        tag("C01 C14", "md-range", "0 <= min_down and min_down <= packing_i1_bottom_y"),
+        tag("C01 C14", "md-range", "min_down <= packing_i1_bottom_y"),
+        tag("C14", "md-nonneg", "0 <= min_down"),
         tag("C01 C14", "md-lower", "forall(k, bin_start, i0, implies(xov(packing, k, packing_i1_left_x, packing_i1_right_x)"
             " and packing[k, IDX_BOTTOM_Y] < packing_i1_top_y, min_down <= packing_i1_bottom_y - packing[k, IDX_TOP_Y]))"),
         tag("C14", "md-tight", "min_down == packing_i1_bottom_y or exists(k, bin_start, i0,"
@@ -78,7 +79,8 @@ contract(
     requires=_move_pre,
     modifies=["packing"],
     loops={"0": Loop(inv=[
-        tag("C01 C14", "ml-range", "0 <= min_left and min_left <= packing_i1_left_x"),
+        tag("C01 C14", "ml-range", "min_left <= packing_i1_left_x"),
+        tag("C14", "ml-nonneg", "0 <= min_left"),
         tag("C01 C14", "ml-lower-support", "forall(k, bin_start, i0, implies(ml_support(packing, k, packing_i1_left_x,"
             " packing_i1_bottom_y, packing_i1_right_x), min_left <= packing_i1_right_x - packing[k, IDX_LEFT_X]))"),
         tag("C01 C14", "ml-lower-blocker", "forall(k, bin_start, i0, implies(ml_blocker(packing, k, packing_i1_left_x,"
@@ -359,7 +361,8 @@ contract(
     params=_params_2, ghosts={"W": INT, "H": INT}, returns=BOOL,
     requires=_move_pre_2, modifies=["packing"],
     loops={"0": Loop(inv=[
-        tag("C01 C14", "md-range", "0 <= min_down and min_down <= packing_i1_bottom_y"),
+        tag("C01 C14", "md-range", "min_down <= packing_i1_bottom_y"),
+        tag("C14", "md-nonneg", "0 <= min_down"),
         tag("C01 C14", "md-lower", "forall(k, bin_start, i0, implies(packing[k, IDX_BIN] == bin_id"
             " and xov(packing, k, packing_i1_left_x, packing_i1_right_x)"
             " and packing[k, IDX_BOTTOM_Y] < packing_i1_top_y, min_down <= packing_i1_bottom_y - packing[k, IDX_TOP_Y]))"),
@@ -394,7 +397,8 @@ contract(
     params=_params_2, ghosts={"W": INT, "H": INT}, returns=BOOL,
     requires=_move_pre_2, modifies=["packing"],
     loops={"0": Loop(inv=[
-        tag("C01 C14", "ml-range", "0 <= min_left and min_left <= packing_i1_left_x"),
+        tag("C01 C14", "ml-range", "min_left <= packing_i1_left_x"),
+        tag("C14", "ml-nonneg", "0 <= min_left"),
         tag("C01 C14", "ml-lower-support", "forall(k, bin_start, i0, implies(packing[k, IDX_BIN] == bin_id"
             " and ml_support(packing, k, packing_i1_left_x,"
             " packing_i1_bottom_y, packing_i1_right_x), min_left <= packing_i1_right_x - packing[k, IDX_LEFT_X]))"),
